@@ -207,7 +207,7 @@ func Check(cfg Config, prop, tier string) int {
 		sort.Slice(viols, func(i, j int) bool { return viols[i].Index < viols[j].Index })
 		v := viols[0]
 		nviol = len(viols)
-		rp, code := confirm(cfg, prop, tier, seed, tmp, v)
+		rp, code := confirm(cfg, prop, tier, seed, tmp, v, workers)
 		if code == 2 {
 			return 2
 		}
@@ -278,25 +278,63 @@ func Check(cfg Config, prop, tier string) int {
 }
 
 // confirm minimises a violation and replays the result in a fresh process.
-func confirm(cfg Config, prop, tier string, seed uint64, tmp string, v core.ViolationRecord) (string, int) {
+func confirm(cfg Config, prop, tier string, seed uint64, tmp string, v core.ViolationRecord, workers int) (string, int) {
 	in := filepath.Join(tmp, "viol.json")
 	b, _ := json.Marshal(v)
 	os.WriteFile(in, b, 0o644)
 	dir := filepath.Join(cfg.VerifDir, "replays")
 	os.MkdirAll(dir, 0o755)
 	out := filepath.Join(dir, fmt.Sprintf("%s-%d-%d.json", prop, seed, v.Index))
+	trouble := ""
 	_, se, code := cfg.run(prop, nil, "shrink", "--prop", prop, "--tier", tier, "--seed", strconv.FormatUint(seed, 10),
 		"--in", in, "--out", out, "--known", cfg.known())
 	if code != 0 {
-		fmt.Fprintf(os.Stderr, "HARNESS: shrink failed (%d): %s\n", code, tailOf(string(se), 4000))
-		return "", 2
+		trouble = fmt.Sprintf("shrink failed (%d): %s", code, tailOf(string(se), 4000))
+	} else {
+		so, se, code := cfg.run(prop, nil, "replay", "--known", cfg.known(), out)
+		if code == 0 {
+			return out, 0
+		}
+		trouble = fmt.Sprintf("the minimised violation did not replay in a fresh process (%d): %s %s", code, so, tailOf(string(se), 4000))
 	}
-	so, se, code := cfg.run(prop, nil, "replay", "--known", cfg.known(), out)
-	if code != 0 {
-		fmt.Fprintf(os.Stderr, "HARNESS: the minimised violation did not replay in a fresh process (%d): %s %s\n", code, so, tailOf(string(se), 4000))
-		return "", 2
+	// The run alone does not fail in a fresh process. If the code under test keeps state for the
+	// life of the process, the run after its predecessors in the same worker does: find the shortest
+	// suffix of those predecessors after which it reproduces, and make them part of the replay file.
+	w := v.Index % workers
+	var pred []int
+	for i := w; i < v.Index; i += workers {
+		pred = append(pred, i)
 	}
-	return out, 0
+	// (first of all the unminimised run on its own: executions of the shrinker share one process,
+	// so with such state a candidate may "fail" only thanks to its predecessors in the shrinker)
+	ks := []int{0}
+	for k := 1; k < len(pred); k *= 2 {
+		ks = append(ks, k)
+	}
+	if len(pred) > 0 {
+		ks = append(ks, len(pred))
+	}
+	for _, k := range ks {
+		var ws []string
+		for _, i := range pred[len(pred)-k:] {
+			ws = append(ws, strconv.Itoa(i))
+		}
+		_, _, code := cfg.run(prop, nil, "context", "--prop", prop, "--tier", tier, "--seed", strconv.FormatUint(seed, 10),
+			"--in", in, "--out", out, "--known", cfg.known(), "--warmup", strings.Join(ws, ","))
+		if code != 0 {
+			continue
+		}
+		if _, _, rc := cfg.run(prop, nil, "replay", "--known", cfg.known(), out); rc == 0 {
+			if k == 0 {
+				fmt.Printf("note: reported unminimised: the code under test keeps state across executions in one process, which misled the shrinker\n")
+			} else {
+				fmt.Printf("note: the violation depends on state the code under test keeps across runs of one process; the replay file executes %d earlier run(s) of the batch first\n", k)
+			}
+			return out, 0
+		}
+	}
+	fmt.Fprintf(os.Stderr, "HARNESS: %s\n", trouble)
+	return "", 2
 }
 
 // Replay re-executes a replay file in a worker process.
